@@ -101,6 +101,169 @@ class C17Kw2(C17Kw):
     extra: object = 1
 
 
+# ---------------------------------- (round 7) the decorator's OPTIONS: init=, hash=
+# expr_dataclass(init=..., hash=...) is part of what a user can write.  Every combination that
+# gives a usable node type, as a leaf (string fields only) and as an inner node (children):
+#   init=False   the class writes its own __init__ (here: other parameter order than the field
+#                order, or a normalising one); everything else - cached hash, ==, pickling by
+#                field tuple - still comes from the decorator
+#   hash=False   the decorator installs no hash: the class brings its own (uncached) one, or it
+#                derives from a dataclass node and inherits that node's
+# Bases: Expression itself, a plain (non-dataclass) intermediate class, a stock dataclass node,
+# a user dataclass node.  OPT_FIELDS: per class the fields in field order, "s" string / "c" child
+# (catalogue record User(cls, s, c): the s fields in order, the c fields in order).
+def _set(obj, **kw):
+    for k, v in kw.items():
+        object.__setattr__(obj, k, v)
+
+
+@p.expr_dataclass(init=False)
+class C17Oi(p.Expression):
+    """init=False, directly under Expression; __init__ takes (child, name)"""
+    name: str
+    child: object
+
+    def __init__(self, child, name="oi"):
+        _set(self, name=str(name), child=child)
+
+
+@p.expr_dataclass(init=False)
+class C17OiLeaf(p.Expression):
+    """init=False leaf, directly under Expression"""
+    name: str
+    tag: str
+
+    def __init__(self, name, tag=""):
+        _set(self, name=name, tag=tag)
+
+
+class C17PlainBase(p.Expression):
+    """a plain intermediate class (no dataclass, no fields): helper methods only"""
+
+    def describe(self):
+        return type(self).__name__
+
+
+@p.expr_dataclass(init=False)
+class C17OiMid(C17PlainBase):
+    """init=False under a non-dataclass intermediate class"""
+    left: object
+    tag: str
+    right: object
+
+    def __init__(self, tag, left, right):
+        _set(self, left=left, tag=tag, right=right)
+
+
+@p.expr_dataclass(init=False)
+class C17OiVar(p.Variable):
+    """init=False leaf under a stock dataclass node"""
+    tag: str
+
+    def __init__(self, name, tag="t"):
+        _set(self, name=name, tag=tag)
+
+
+@p.expr_dataclass(init=False)
+class C17OiSub(C17Oi):
+    """init=False under a user dataclass node that is init=False itself"""
+    extra: object
+
+    def __init__(self, child, extra, name="sub"):
+        _set(self, name=name, child=child, extra=extra)
+
+
+@p.expr_dataclass(init=False, hash=False)
+class C17OiNh(p.Expression):
+    """init=False, hash=False, own uncached hash"""
+    name: str
+    child: object
+
+    def __init__(self, name, child):
+        _set(self, name=name, child=child)
+
+    def __hash__(self):
+        return hash(("C17OiNh", self.name, self.child))
+
+
+@p.expr_dataclass(init=False, hash=False)
+class C17OiNhLeaf(p.Expression):
+    """init=False, hash=False leaf, own uncached hash"""
+    name: str
+
+    def __init__(self, name):
+        _set(self, name=name)
+
+    def __hash__(self):
+        return hash(("C17OiNhLeaf", self.name))
+
+
+@p.expr_dataclass(hash=False)
+class C17NoHashLeaf(p.Expression):
+    """hash=False leaf, own uncached hash (C17NoHash is the inner node of this kind)"""
+    name: str
+
+    def __hash__(self):
+        return hash(("C17NoHashLeaf", self.name))
+
+
+@p.expr_dataclass(hash=False)
+class C17NhVar(p.Variable):
+    """hash=False leaf under a stock dataclass node: inherits that node's hash"""
+    tag: str
+
+
+@p.expr_dataclass(hash=False)
+class C17NhPair(C17Pair):
+    """hash=False under a user dataclass node: inherits that node's hash"""
+    extra: object = 0
+
+
+@p.expr_dataclass(init=False, hash=False)
+class C17OiNhVar(p.Variable):
+    """init=False, hash=False leaf under a stock dataclass node"""
+    tag: str
+
+    def __init__(self, name, tag="t"):
+        _set(self, name=name, tag=tag)
+
+
+@p.expr_dataclass(init=False, hash=False)
+class C17OiNhSub(C17Oi):
+    """init=False, hash=False under a user dataclass node"""
+    extra: object
+
+    def __init__(self, child, extra, name="sub"):
+        _set(self, name=name, child=child, extra=extra)
+
+
+OPT_FIELDS = {
+    "C17Oi": (("s", "name"), ("c", "child")),
+    "C17OiLeaf": (("s", "name"), ("s", "tag")),
+    "C17OiMid": (("c", "left"), ("s", "tag"), ("c", "right")),
+    "C17OiVar": (("s", "name"), ("s", "tag")),
+    "C17OiSub": (("s", "name"), ("c", "child"), ("c", "extra")),
+    "C17OiNh": (("s", "name"), ("c", "child")),
+    "C17OiNhLeaf": (("s", "name"),),
+    "C17NoHashLeaf": (("s", "name"),),
+    "C17NhVar": (("s", "name"), ("s", "tag")),
+    "C17NhPair": (("c", "left"), ("s", "tag"), ("c", "right"), ("c", "extra")),
+    "C17OiNhVar": (("s", "name"), ("s", "tag")),
+    "C17OiNhSub": (("s", "name"), ("c", "child"), ("c", "extra")),
+}
+OPT_CLASSES = (C17Oi, C17OiLeaf, C17OiMid, C17OiVar, C17OiSub, C17OiNh, C17OiNhLeaf,
+               C17NoHashLeaf, C17NhVar, C17NhPair, C17OiNhVar, C17OiNhSub)
+
+
+def _mk_opt(cls, flds):
+    def mk(s, c, omit):
+        s, c = list(s), list(c)
+        kw = {name: (s if kind == "s" else c).pop(0) for kind, name in flds}
+        assert not s and not c, (cls, s, c)
+        return cls(**kw)        # by parameter name: a hand-written __init__ has its own order
+    return mk
+
+
 def _mk_kw(cls):
     def mk(s, c, omit):
         pos = list(c)
@@ -134,6 +297,7 @@ def _mk_dfl(s, c, omit):
 # omit: arguments equal to the field defaults are left out
 MAKE = {"C17Kw": _mk_kw(C17Kw), "C17Kw2": _mk_kw(C17Kw2), "C17KwMid": _mk_kw_mid,
         "C17Init": _mk_init, "C17Dfl": _mk_dfl}
+MAKE.update({c.__name__: _mk_opt(c, OPT_FIELDS[c.__name__]) for c in OPT_CLASSES})
 
 
 # -------------------------------------------------- legacy init-args subclasses
@@ -189,7 +353,7 @@ def _ga():
 
 CLASSES = {c.__name__: c for c in
            (C17Pair, C17Tagged, C17Unit, C17NoHash, C17Names, C17Old, C17OldLeaf, C17OldVar,
-            C17Kw, C17KwMid, C17Init, C17Dfl, C17Kw2, C17Fn, *_ga())}
+            C17Kw, C17KwMid, C17Init, C17Dfl, C17Kw2, C17Fn, *OPT_CLASSES, *_ga())}
 
 
 # ----------------------------------------------------------- persistent hashing
@@ -319,3 +483,21 @@ class C17PersistentHash(PersistentHashWalkMapper):
         self._s(expr.tag)
         self._s(expr.count)
         self.post_visit(expr)
+
+
+# round 7 classes: every field, in field order (strings hashed, children walked)
+def _opt_walker(flds):
+    def walk(self, expr):
+        if not self.visit(expr):
+            return
+        for kind, name in flds:
+            if kind == "s":
+                self._s(getattr(expr, name))
+            else:
+                self.rec(getattr(expr, name))
+        self.post_visit(expr)
+    return walk
+
+
+for _c in OPT_CLASSES:
+    setattr(C17PersistentHash, _c.mapper_method, _opt_walker(OPT_FIELDS[_c.__name__]))
